@@ -170,6 +170,109 @@ func VerifC01Parsed(a, b string, want int) int {
 	return 0
 }
 
+
+// ---------------------------------------------------------------- C03
+
+func eqVersion(a, b Version) bool {
+	return a.Epoch == b.Epoch && a.Version == b.Version && a.Revision == b.Revision
+}
+
+// VerifC03Round: every accepted string renders (String, MarshalControl, MarshalText) to text that
+// parses back to the same value.  0 = holds (or s is rejected).
+func VerifC03Round(s string) int {
+	v, err := Parse(s)
+	if err != nil {
+		return 0
+	}
+	v2, err := Parse(v.String())
+	if err != nil {
+		return 10
+	}
+	if !eqVersion(v, v2) {
+		return 11
+	}
+	mc, err := v.MarshalControl()
+	if err != nil {
+		return 20
+	}
+	var v3 Version
+	if err := v3.UnmarshalControl(mc); err != nil {
+		return 21
+	}
+	if !eqVersion(v, v3) {
+		return 22
+	}
+	mt, err := (&v).MarshalText()
+	if err != nil {
+		return 30
+	}
+	var v4 Version
+	if err := v4.UnmarshalText(mt); err != nil {
+		return 31
+	}
+	if !eqVersion(v, v4) {
+		return 32
+	}
+	return 0
+}
+
+// VerifC03Grammar: a string assembled from the Policy grammar is accepted with exactly its parts.
+// epoch is a digit string (used when hasEpoch), revision is used when hasRev.
+func VerifC03Grammar(ws1, epoch, upstream, revision, ws2 string, hasEpoch, hasRev bool) int {
+	s := ws1
+	var want uint
+	if hasEpoch {
+		for i := 0; i < len(epoch); i++ {
+			want = want*10 + uint(epoch[i]-'0')
+		}
+		s += epoch + ":"
+	}
+	s += upstream
+	wantRev := ""
+	if hasRev {
+		s += "-" + revision
+		wantRev = revision
+	}
+	s += ws2
+	v, err := Parse(s)
+	if err != nil {
+		return 1
+	}
+	if v.Epoch != want {
+		return 2
+	}
+	if v.Version != upstream {
+		return 3
+	}
+	if v.Revision != wantRev {
+		return 4
+	}
+	var u Version
+	if err := u.UnmarshalControl(s); err != nil {
+		return 5
+	}
+	if !eqVersion(u, v) {
+		return 6
+	}
+	return 0
+}
+
+// VerifC03Reject: s belongs to a class the statement says is rejected.  0 = rejected.
+func VerifC03Reject(s string) int {
+	_, err := Parse(s)
+	if err == nil {
+		return 1
+	}
+	var u Version
+	if err := u.UnmarshalControl(s); err == nil {
+		return 2
+	}
+	if err := u.UnmarshalText([]byte(s)); err == nil {
+		return 3
+	}
+	return 0
+}
+
 var verifFuncs = map[string]interface{}{
 	"VerifC01Rev":     VerifC01Rev,
 	"VerifSpecCmp":    VerifSpecCmp,
@@ -178,4 +281,7 @@ var verifFuncs = map[string]interface{}{
 	"VerifC01Less":    VerifC01Less,
 	"VerifLess":       VerifLess,
 	"VerifC01Parsed":  VerifC01Parsed,
+	"VerifC03Round":   VerifC03Round,
+	"VerifC03Grammar": VerifC03Grammar,
+	"VerifC03Reject":  VerifC03Reject,
 }
